@@ -748,6 +748,8 @@ class BuiltinMixin:
                 tup = TupleV(args.pos)
                 self.hstore(st, r_of(obj.term), 'args', self.to_term(st, tup))
             return self.ok(st, self.py_none())
+        if ext.qualname == 'dict' and not args.pos and args.tail is None and not args.kw and args.kwrest is None:
+            return self.ok(st, self.py_none())
         if ext.qualname in ('collections.abc.Mapping', 'collections.abc.MutableMapping', 'collections.abc.Sequence', 'object', 'types.SimpleNamespace'):
             if ext.qualname == 'types.SimpleNamespace' and (args.kw or args.kwrest is not None):
                 st = st.copy()
